@@ -71,7 +71,7 @@ def run(v, tier):
     cases, traces = [], []
     exhausted = 0
     for q, r in zip(reqs, res):
-        if 'RecursionError' in r['out'] or 'RecursionError' in (r.get('stage_error') or '') or r['out'].startswith('resource:'):
+        if any(x in r['out'] or x in (r.get('stage_error') or '') for x in ('RecursionError', 'MemoryError')) or r['out'].startswith('resource:'):
             exhausted += 1        # interpreter resource limit (deeply nested notation in ==), not a verdict of the procedure
             continue
         cases.append({'fam': 'prove', 'pat': q['pat'], 'out': 'ok' if r['out'] == 'ok' else 'raise', 'exc': r['out'], 'verdict': r['verdict'], 'conc': r['conc']})
